@@ -124,3 +124,15 @@ func TestOne(t *testing.T) {
 	}
 	fmt.Println("scenario not found")
 }
+
+var (
+	fRaceWorker = flag.Bool("mcx.raceworker", false, "run as race-pass worker")
+	fRaceLog    = flag.String("mcx.racelog", "", "race worker: file that receives the process's stderr")
+)
+
+func TestRaceWorker(t *testing.T) {
+	if !*fRaceWorker {
+		t.Skip("race worker mode only")
+	}
+	RaceWorkerMain(t, *fRaceLog)
+}
